@@ -72,4 +72,147 @@ example : ((exec (memset_s 100 1 7 2 none)
       { data := fun _ => 0, mapped := fun _ => true, rd := fun _ => true, wr := fun _ => true }).toOption.map
         (fun x => (x.1, x.2.events))) = some (memsetCode 100 1 7 2, [.handler .mem ESNOSPC]) := by decide
 
+/-! ## memzero_s -/
+
+/-- src/extmem/memzero_s.c: `@retval EOK when operation is successful`, `ESNULLP when dest is NULL POINTER`,
+`ESZEROL when len = ZERO`, `ESLEMAX when len > RSIZE_MAX_MEM` -/
+def memzeroCode (dest len : Nat) : Nat :=
+  if dest = 0 then ESNULLP
+  else if len = 0 then ESZEROL
+  else if len > RSIZE_MAX_MEM then ESLEMAX
+  else EOK
+
+theorem memzero_s_code (dest len : Nat) : EV (memzero_s dest len none) (Is .mem (memzeroCode dest len)) := by
+  by_cases h1 : dest = 0
+  · simp only [memzero_s, memzeroCode, h1, if_true]; exact is_failM _ (by decide)
+  by_cases h2 : len = 0
+  · simp only [memzero_s, memzeroCode, h1, h2, if_true, if_false]; exact is_failM _ (by decide)
+  by_cases h3 : len > RSIZE_MAX_MEM
+  · simp only [memzero_s, memzeroCode, chkDmaxMemB, h1, h2, h3, if_true, if_false]; exact is_failM _ (by decide)
+  · simp only [memzero_s, memzeroCode, chkDmaxMemB, h1, h2, h3, if_false]
+    exact is_work_eok (q_memsetBytes _ _ _ _)
+
+/-- memzero_s, object size unknown: the code is `memzeroCode` of the arguments, reported exactly once iff ≠ EOK -/
+theorem memzero_s_meaning (dest len : Nat) (st : St) (r : Nat) (st' : St)
+    (he : exec (memzero_s dest len none) st = .ok (r, st')) :
+    r = memzeroCode dest len ∧
+      ((r = EOK ∧ st'.events = st.events) ∨ (r ≠ EOK ∧ st'.events = st.events ++ [.handler .mem r])) :=
+  Is.sound (memzero_s_code ..) st r st' he
+
+theorem memzeroCode_eok_iff (dest len : Nat) :
+    memzeroCode dest len = EOK ↔ dest ≠ 0 ∧ len ≠ 0 ∧ len ≤ RSIZE_MAX_MEM := by
+  have e1 : ESNULLP ≠ EOK := by decide
+  have e2 : ESLEMAX ≠ EOK := by decide
+  have e3 : ESZEROL ≠ EOK := by decide
+  unfold memzeroCode
+  repeat' split
+  all_goals simp only [e1, e2, e3, false_iff, true_iff, not_and, not_or, ne_eq]
+  all_goals omega
+
+example : ((exec (memzero_s 100 0 none)
+      { data := fun _ => 0, mapped := fun _ => true, rd := fun _ => true, wr := fun _ => true }).toOption.map
+        (fun x => (x.1, x.2.events))) = some (memzeroCode 100 0, [.handler .mem ESZEROL]) := by decide
+
+/-! ## memset16_s, memset32_s (`dmax` in bytes, `n` in elements) -/
+
+/-- src/extmem/memset16_s.c: `@retval EOK when operation is successful or n = 0`, `ESNULLP when dest is NULL POINTER`,
+`ESLEMAX when dmax > RSIZE_MAX_MEM or n > RSIZE_MAX_MEM16`, `ESNOSPC when 2*n > dmax` -/
+def memset16Code (dest dmax n : Nat) : Nat :=
+  if dest = 0 then ESNULLP
+  else if n = 0 then EOK
+  else if dmax > RSIZE_MAX_MEM then ESLEMAX
+  else if 2 * n > dmax then (if n > RSIZE_MAX_MEM16 then ESLEMAX else ESNOSPC)
+  else EOK
+
+theorem memset16_s_code (dest dmax value n : Nat) :
+    EV (memset16_s dest dmax value n none) (Is .mem (memset16Code dest dmax n)) := by
+  by_cases h1 : dest = 0
+  · simp only [memset16_s, memset16Code, h1, if_true]; exact is_failM _ (by decide)
+  by_cases h2 : n = 0
+  · simp only [memset16_s, memset16Code, h1, h2, if_true, if_false]; exact is_eok
+  by_cases h3 : dmax > RSIZE_MAX_MEM
+  · simp only [memset16_s, memset16Code, chkDmaxMemB, h1, h2, h3, if_true, if_false]; exact is_failM _ (by decide)
+  by_cases h5 : n > dmax / 2
+  · have h5' : 2 * n > dmax := by omega
+    by_cases h6 : n > RSIZE_MAX_MEM16
+    · simp only [memset16_s, memset16Code, chkDmaxMemB, Option.getD_none, h1, h2, h3, h5, h5', h6, if_true, if_false]
+      exact is_report_work (q_mem_prim_set16 _ _ _) _ (by decide)
+    · simp only [memset16_s, memset16Code, chkDmaxMemB, Option.getD_none, h1, h2, h3, h5, h5', h6, if_true, if_false]
+      exact is_report_work (q_mem_prim_set16 _ _ _) _ (by decide)
+  · have h5' : ¬ 2 * n > dmax := by omega
+    simp only [memset16_s, memset16Code, chkDmaxMemB, Option.getD_none, h1, h2, h3, h5, h5', if_true, if_false]
+    exact is_work_eok (q_mem_prim_set16 _ _ _)
+
+/-- memset16_s, object size unknown: the code is `memset16Code` of the arguments (the fill value plays no part) -/
+theorem memset16_s_meaning (dest dmax value n : Nat) (st : St) (r : Nat) (st' : St)
+    (he : exec (memset16_s dest dmax value n none) st = .ok (r, st')) :
+    r = memset16Code dest dmax n ∧
+      ((r = EOK ∧ st'.events = st.events) ∨ (r ≠ EOK ∧ st'.events = st.events ++ [.handler .mem r])) :=
+  Is.sound (memset16_s_code ..) st r st' he
+
+theorem memset16Code_eok_iff (dest dmax n : Nat) :
+    memset16Code dest dmax n = EOK ↔
+      dest ≠ 0 ∧ (n = 0 ∨ (dmax ≤ RSIZE_MAX_MEM ∧ n ≤ RSIZE_MAX_MEM16 ∧ 2 * n ≤ dmax)) := by
+  have e1 : ESNULLP ≠ EOK := by decide
+  have e2 : ESLEMAX ≠ EOK := by decide
+  have e3 : ESNOSPC ≠ EOK := by decide
+  have hm : RSIZE_MAX_MEM = 2 * RSIZE_MAX_MEM16 := by decide
+  unfold memset16Code
+  repeat' split
+  all_goals simp only [e1, e2, e3, false_iff, true_iff, not_and, not_or, ne_eq]
+  all_goals omega
+
+/-- src/extmem/memset32_s.c: as memset16_s with `RSIZE_MAX_MEM32` and `4*n > dmax` -/
+def memset32Code (dest dmax n : Nat) : Nat :=
+  if dest = 0 then ESNULLP
+  else if n = 0 then EOK
+  else if dmax > RSIZE_MAX_MEM then ESLEMAX
+  else if 4 * n > dmax then (if n > RSIZE_MAX_MEM32 then ESLEMAX else ESNOSPC)
+  else EOK
+
+theorem memset32_s_code (dest dmax value n : Nat) :
+    EV (memset32_s dest dmax value n none) (Is .mem (memset32Code dest dmax n)) := by
+  by_cases h1 : dest = 0
+  · simp only [memset32_s, memset32Code, h1, if_true]; exact is_failM _ (by decide)
+  by_cases h2 : n = 0
+  · simp only [memset32_s, memset32Code, h1, h2, if_true, if_false]; exact is_eok
+  by_cases h3 : dmax > RSIZE_MAX_MEM
+  · simp only [memset32_s, memset32Code, chkDmaxMemB, h1, h2, h3, if_true, if_false]; exact is_failM _ (by decide)
+  by_cases h5 : n > dmax / 4
+  · have h5' : 4 * n > dmax := by omega
+    by_cases h6 : n > RSIZE_MAX_MEM32
+    · simp only [memset32_s, memset32Code, chkDmaxMemB, Option.getD_none, h1, h2, h3, h5, h5', h6, if_true, if_false]
+      exact is_report_work (q_mem_prim_set32 _ _ _) _ (by decide)
+    · simp only [memset32_s, memset32Code, chkDmaxMemB, Option.getD_none, h1, h2, h3, h5, h5', h6, if_true, if_false]
+      exact is_report_work (q_mem_prim_set32 _ _ _) _ (by decide)
+  · have h5' : ¬ 4 * n > dmax := by omega
+    simp only [memset32_s, memset32Code, chkDmaxMemB, Option.getD_none, h1, h2, h3, h5, h5', if_true, if_false]
+    exact is_work_eok (q_mem_prim_set32 _ _ _)
+
+/-- memset32_s, object size unknown: the code is `memset32Code` of the arguments -/
+theorem memset32_s_meaning (dest dmax value n : Nat) (st : St) (r : Nat) (st' : St)
+    (he : exec (memset32_s dest dmax value n none) st = .ok (r, st')) :
+    r = memset32Code dest dmax n ∧
+      ((r = EOK ∧ st'.events = st.events) ∨ (r ≠ EOK ∧ st'.events = st.events ++ [.handler .mem r])) :=
+  Is.sound (memset32_s_code ..) st r st' he
+
+theorem memset32Code_eok_iff (dest dmax n : Nat) :
+    memset32Code dest dmax n = EOK ↔
+      dest ≠ 0 ∧ (n = 0 ∨ (dmax ≤ RSIZE_MAX_MEM ∧ n ≤ RSIZE_MAX_MEM32 ∧ 4 * n ≤ dmax)) := by
+  have e1 : ESNULLP ≠ EOK := by decide
+  have e2 : ESLEMAX ≠ EOK := by decide
+  have e3 : ESNOSPC ≠ EOK := by decide
+  have hm : RSIZE_MAX_MEM = 4 * RSIZE_MAX_MEM32 := by decide
+  unfold memset32Code
+  repeat' split
+  all_goals simp only [e1, e2, e3, false_iff, true_iff, not_and, not_or, ne_eq]
+  all_goals omega
+
+example : ((exec (memset16_s 100 2 7 2 none)
+      { data := fun _ => 0, mapped := fun _ => true, rd := fun _ => true, wr := fun _ => true }).toOption.map
+        (fun x => (x.1, x.2.events))) = some (memset16Code 100 2 2, [.handler .mem ESNOSPC]) := by decide
+example : ((exec (memset32_s 100 4 7 2 none)
+      { data := fun _ => 0, mapped := fun _ => true, rd := fun _ => true, wr := fun _ => true }).toOption.map
+        (fun x => (x.1, x.2.events))) = some (memset32Code 100 4 2, [.handler .mem ESNOSPC]) := by decide
+
 end SafeC.Props.C05Meaning
